@@ -300,16 +300,54 @@ func runSeq(rep *hx.Report, rng *hx.Rng, o *hx.Opts, dS3, iS3 bool, faultAt stri
 			f.Script = append([]string(nil), faults...)
 			f.Mu.Unlock()
 		}
-		_, data := w.Deliver("a@example.org", []string{st.user}, msg)
+		// every third message goes to both users in one transaction: each recipient's copy carries the parts
+		rcpts := []string{st.user}
+		if step%3 == 1 && faultAt != "store" {
+			rcpts = []string{"u0@example.com", "u1@example.com"}
+			st.user = rcpts[0]
+			rep.Hit("store:two-recipients")
+		}
+		_, data := w.Deliver("a@example.org", rcpts, msg)
 		f.Mu.Lock()
 		f.Script = nil
 		f.Mu.Unlock()
-		if len(data) != 1 || !strings.HasPrefix(data[0], "250") {
+		accepted := len(data) == len(rcpts)
+		for _, d := range data {
+			accepted = accepted && strings.HasPrefix(d, "250")
+		}
+		if !accepted {
 			// a failed operation is an acceptable outcome of a store fault — but then nothing may be listed
 			rep.Hit("store:refused")
 			continue
 		}
 		rep.Hit("store:ok")
+		if len(rcpts) == 2 {
+			// the second recipient's copy is a stored message of its own
+			st2 := &stored{user: rcpts[1], tok: st.tok, parts: st.parts}
+			c2 := w.Login(st2.user)
+			for _, l := range c2.Cmd("SELECT INBOX").Untagged {
+				fl := strings.Fields(l)
+				if len(fl) == 3 && fl[2] == "EXISTS" {
+					fmt.Sscan(fl[1], &st2.seq)
+				}
+			}
+			c2.Close()
+			all = append(all, st2)
+			for _, p := range st2.parts {
+				if enc := p.encoded(); len(enc) > 1024 || p.name != "" {
+					kh := sha256.Sum256(p.content)
+					ks := hex.EncodeToString(kh[:])
+					if _, ok := keyN[ks]; !ok {
+						keyN[ks] = len(keyN) + 1
+					}
+					txt := strings.TrimSuffix(enc, "\r\n")
+					if _, ok := textN[txt]; !ok {
+						textN[txt] = len(textN) + 1
+					}
+					blobParts = append(blobParts, fmt.Sprintf("%d:%d", keyN[ks], textN[txt]))
+				}
+			}
+		}
 		c := w.Login(st.user)
 		// the message just delivered is the last of its INBOX
 		for _, l := range c.Cmd("SELECT INBOX").Untagged {
